@@ -619,3 +619,15 @@ Definition lit_length (keys : list (option nat)) : nat := fold_left Nat.max (map
 
 Definition y_lit (keys : list (option nat)) : list nat * nat := (lit_indexes 0 keys, lit_length keys).
 Definition g_lit := y_lit.   (* the Go specification's rule is the same function: the contract is met *)
+
+(* ------------------------------------------------------------------ *)
+(** * A declared script function's name where a host-declared func type is expected *)
+
+Inductive fpos := FRet | FVar | FAssign | FParam | FHostArg | FField | FElem | FMapElem | FConv.
+
+(** Is the *node wrapped (genFunctionWrapper) at this position? _return (valueT/Func), callBin
+    (isFuncSrc), compositeBinStruct and convert wrap it; assign / call() / slice and map literals
+    store the *node itself into the host-typed slot, and reflect.Set panics. *)
+Definition y_functype_wraps (p : fpos) : bool :=
+  match p with FRet | FHostArg | FField | FConv => true | _ => false end.
+Definition g_functype_wraps (p : fpos) : bool := true.
